@@ -106,8 +106,10 @@ class JC69(SubstitutionModel):
         :return: tensor of probability matrices [B,K,4,4]
         """
         d = torch.unsqueeze(branch_lengths, -1)
-        a = 0.25 + 3.0 / 4.0 * torch.exp(-4.0 / 3.0 * d)
-        b = 0.25 - 0.25 * torch.exp(-4.0 / 3.0 * d)
+        # expm1: no cancellation for very short branches
+        e = torch.expm1(-4.0 / 3.0 * d)
+        a = 1.0 + 3.0 / 4.0 * e
+        b = -0.25 * e
         return torch.cat((a, b, b, b, b, a, b, b, b, b, a, b, b, b, b, a), -1).reshape(
             d.shape[:-1] + (4, 4)
         )
